@@ -3,6 +3,7 @@ use crate::engine::Ctx;
 
 pub mod c01;
 pub mod c05;
+pub mod c09;
 pub mod c11;
 pub mod c12;
 pub mod c13;
@@ -12,11 +13,13 @@ pub mod c17;
 pub mod c18;
 pub mod common;
 pub mod statgen;
+pub mod targets;
 
 pub fn run(id: &str, ctx: &mut Ctx) -> bool {
     match id {
         "C01" => c01::run(ctx),
         "C05" => c05::run(ctx),
+        "C09" => c09::run(ctx),
         "C11" => c11::run(ctx),
         "C12" => c12::run(ctx),
         "C13" => c13::run(ctx),
@@ -32,4 +35,37 @@ pub fn run(id: &str, ctx: &mut Ctx) -> bool {
 /// Entry point of watchdog-supervised child processes.
 pub fn child_main(_args: &[String]) -> i32 {
     2
+}
+
+/// micro-benchmark of the building blocks (not a check): `mcmc-verif BENCH`
+pub fn bench() {
+    use crate::props::common::*;
+    use crate::props::targets::*;
+    use crate::engine::num::R;
+    use mini_mcmc::nuts::NUTSChain;
+    use mini_mcmc::hmc::HMC;
+    use std::time::Instant;
+    let spec = Spec::Gauss { dim: 2, mean: vec![R(0.0), R(0.0)], prec: vec![R(1.0), R(0.0), R(0.0), R(1.0)] };
+    for f64b in [true, false] {
+        let t0 = Instant::now();
+        mini_mcmc::verif::nuts_trace_start();
+        if f64b {
+            let mut ch = NUTSChain::<f64, B64, HTarget>::new(HTarget::new(spec.clone()), vec![0.5, -0.5], 0.8).set_seed(1);
+            let _ = ch.run(200, 100);
+        } else {
+            let mut ch = NUTSChain::<f32, B32, HTarget>::new(HTarget::new(spec.clone()), vec![0.5, -0.5], 0.8).set_seed(1);
+            let _ = ch.run(200, 100);
+        }
+        let tr = mini_mcmc::verif::nuts_trace_take();
+        let leaps: usize = tr.iter().map(|r| r.doublings.iter().map(|d| d.n_alpha).sum::<usize>()).sum();
+        let el = t0.elapsed().as_secs_f64();
+        println!("NUTS f64={f64b}: {} transitions, {leaps} leapfrogs, {:.3}s => {:.1} us/leapfrog, {:.2} ms/transition", tr.len(), el, el * 1e6 / leaps as f64, el * 1e3 / tr.len() as f64);
+    }
+    for chains in [1usize, 16, 64] {
+        let t0 = Instant::now();
+        let mut s = HMC::<f64, B64, HTarget>::new(HTarget::new(spec.clone()), vec![vec![0.1, 0.2]; chains], 0.2, 10).set_seed(3);
+        let _ = s.run(100, 0);
+        let el = t0.elapsed().as_secs_f64();
+        println!("HMC {chains} chains: 100 steps x 10 leapfrogs {:.3}s => {:.1} us/leapfrog(batch)", el, el * 1e6 / 1000.0);
+    }
 }
